@@ -71,7 +71,8 @@ fn scaled(v: f64, q: f64) -> Value {
     if n.is_finite() && n.fract() == 0.0 && n.abs() < 2147483647.0 {
         json!(n as i64)
     } else {
-        json!(format!("inexact:{v}"))
+        // not an exact multiple of 1/q (or NaN / out of range): a marker no exact value can equal
+        json!(-2147483000i64)
     }
 }
 
